@@ -847,3 +847,169 @@ Example C15_sw_item_nonvacuous :
   forallb plain (sw_default_generic_constraints c15_swnv_cfg) = true /\
   forallb c15_swnv_written [c15_swnv_enum; c15_swnv_unit_enum; c15_swnv_struct; c15_swnv_alias] = true.
 Proof. repeat split; vm_compute; reflexivity. Qed.
+
+(* ================================================================================================
+   Swift, whole files: sw_generate = header ++ items (topological order, the flag "() was translated"
+   threaded through them) ++ trailer (the CodableVoid helper struct when the flag is set).
+   ================================================================================================ *)
+From Coq Require Import Permutation.
+From TS Require Import Model.TopsortAlgo Model.Topsort.
+From TS Require Proofs.C11.
+
+(* ---- the header: a block comment with the version, neutral when the version has no star and no slash ---- *)
+Lemma sw_block_version v : c15_sw_version_ok v = true -> lex_str_gen cfg_sw (LBlock 0 PNone) v = LBlock 0 PNone.
+Proof.
+  unfold c15_sw_version_ok. induction v as [|c r IH]; [reflexivity|]. cbn [forallb]. intros H. apply andb_true_iff in H as [Hc Hr].
+  apply andb_true_iff in Hc as [H1 H2]. apply negb_true_iff in H1, H2.
+  cbn [lex_str_gen fold_left lex_gen is_star is_pslash andb cfg_sw lc_nested]. rewrite H1, H2. exact (IH Hr).
+Qed.
+
+Lemma sw_begin_neutral cfg : c15_sw_version_ok (sw_version cfg) = true -> NS (sw_begin_file cfg).
+Proof.
+  intros H. unfold sw_begin_file. apply c15_neutral_app; [|reflexivity].
+  destruct (sw_no_version_header cfg); [reflexivity|].
+  change (lit "/*" ++ sw_nl ++ lit " Generated by typeshare " ++ sw_version cfg ++ sw_nl ++ lit " */" ++ sw_nl ++ sw_nl)
+    with ((lit "/*" ++ sw_nl ++ lit " Generated by typeshare ") ++ sw_version cfg ++ (sw_nl ++ lit " */" ++ sw_nl ++ sw_nl)).
+  unfold c15_neutral. change (c15_cfg C15sw) with cfg_sw. rewrite lex_str_app.
+  change (lex_str_gen cfg_sw LCode (lit "/*" ++ sw_nl ++ lit " Generated by typeshare ")) with (LBlock 0 PNone).
+  rewrite lex_str_app, (sw_block_version _ H). reflexivity.
+Qed.
+
+Section SWFile.
+Variable uc : unicode.
+Variable cfg : sw_config.
+Hypothesis Hprefix : c15_sw_raw (sw_prefix cfg) = true.
+Hypothesis Hmap : c15_mappings_plain C15sw (sw_type_mappings cfg) = true.
+Hypothesis Hdecs : forallb plain (sw_default_decorators cfg) = true.
+Hypothesis Hgcs : forallb plain (sw_default_generic_constraints cfg) = true.
+Hypothesis Hvoid : forallb plain (sw_codablevoid_constraints cfg) = true.
+Hypothesis Hversion : c15_sw_version_ok (sw_version cfg) = true.
+
+(* ---- the trailer ---- *)
+Lemma sw_end_file_decomp st : DS (sw_end_file cfg st) (c15_sites false (if st then c15_sw_trailer_docs else [])).
+Proof.
+  unfold sw_end_file, sw_trailing_decls. destruct st; [|apply Decomp_nil].
+  cbn [flat_map]. rewrite app_nil_r. apply (swn_decl_decomp (sw_codable_void cfg)).
+  unfold sw_codable_void. cbv zeta. cbn [sw_decl_ok].
+  assert (Hd : forallb plain (sw_get_default_decorators cfg ++ sw_codablevoid_constraints cfg) = true).
+  { rewrite forallb_app, Hvoid, andb_true_r. unfold sw_get_default_decorators. cbn [forallb]. now rewrite Hdecs. }
+  destruct (mem_str sw_CODABLE (sw_get_default_decorators cfg ++ sw_codablevoid_constraints cfg)); [exact Hd|].
+  now rewrite forallb_app, Hd.
+Qed.
+
+(* ---- items in sequence ---- *)
+Lemma sw_items_decomp items : forall s texts s',
+  forallb c15_sw_item_ok items = true ->
+  mmapM (sw_write_item uc cfg) items s = Ok (texts, s') ->
+  DS (List.concat texts) (c15_sites false (flat_map (c15_sw_item_docs uc) items)).
+Proof.
+  induction items as [|it r IH]; intros s texts s' Hp H; cbn [mmapM] in H.
+  - unfold ret in H. injection H as <- _. apply Decomp_nil.
+  - cbn [forallb] in Hp. apply andb_true_iff in Hp as [Hp1 Hp2].
+    apply mbind_ok in H as (t & s1 & Ht & H). apply mbind_ok in H as (ts & s2 & Hts & H).
+    unfold ret in H. injection H as <- _.
+    cbn [List.concat flat_map]. unfold c15_sites. rewrite map_app. apply Decomp_app; [|exact (IH _ _ _ Hp2 Hts)].
+    exact (swn_item_decomp uc cfg Hprefix Hmap Hdecs Hgcs _ _ _ _ Hp1 Ht).
+Qed.
+
+(* ---- the whole file ---- *)
+Theorem sw_file_decomp pd text :
+  forallb c15_sw_item_ok (items_of pd) = true ->
+  sw_generate uc cfg pd = Ok text ->
+  exists items trailer,
+    topsort (items_of pd) = Ok items /\ Permutation items (items_of pd) /\
+    (trailer = [] \/ trailer = c15_sw_trailer_docs) /\
+    DS text (c15_sites false (flat_map (c15_sw_item_docs uc) items ++ trailer)).
+Proof.
+  intros Hp H. unfold sw_generate in H. apply c15_bind_ok in H as (items & Hitems & H).
+  assert (Hperm : Permutation items (items_of pd)).
+  { assert (H' := Hitems). unfold topsort in H'. destruct (build_dag (items_of pd)) as [dag| |] eqn:E; cbn [bind] in H'; try discriminate.
+    destruct (Proofs.C11.topsort_permutation _ _ E) as (out & Eo & P). rewrite Hitems in Eo. injection Eo as <-. exact P. }
+  rewrite <- (c15_forallb_perm _ _ _ Hperm) in Hp.
+  unfold mconcat, mbind in H. destruct (mmapM (sw_write_item uc cfg) items false) as [[texts st]| |] eqn:E; try discriminate.
+  unfold ret in H. injection H as <-.
+  exists items, (if st then c15_sw_trailer_docs else []). repeat split; auto.
+  - destruct st; auto.
+  - unfold c15_sites. rewrite map_app, <- (app_nil_l (map _ (flat_map _ _) ++ _)).
+    apply Decomp_app; [apply Decomp_code; now apply sw_begin_neutral|].
+    apply Decomp_app; [exact (sw_items_decomp items _ _ _ Hp E)|]. apply sw_end_file_decomp.
+Qed.
+
+Theorem C15_sw_file pd text :
+  forallb c15_sw_item_ok (items_of pd) = true ->
+  sw_generate uc cfg pd = Ok text ->
+  exists items trailer parts,
+    topsort (items_of pd) = Ok items /\ Permutation items (items_of pd) /\
+    (trailer = [] \/ trailer = c15_sw_trailer_docs) /\
+    text = text_of (c15_file_pieces C15sw parts) /\
+    docs_of (c15_file_pieces C15sw parts) = flat_map (c15_sw_item_docs uc) items ++ trailer /\
+    c15_contained C15sw LCode (mark (c15_file_pieces C15sw parts)) =
+    forallb safe_sw (flat_map (c15_sw_item_docs uc) items).
+Proof.
+  intros Hp H. destruct (sw_file_decomp _ _ Hp H) as (items & trailer & Ht & Hperm & Htr & HD).
+  destruct (Decomp_contained _ _ _ HD) as (ps & Htext & Hd & Hc).
+  exists items, trailer, ps. rewrite c15_sites_text_line in Hd by discriminate. rewrite c15_sites_ok_false in Hc by discriminate.
+  repeat split; auto. rewrite Hc, forallb_app.
+  change (c15_safe C15sw false) with safe_sw.
+  destruct Htr as [-> | ->]; [apply andb_true_r|]. now rewrite andb_true_r.
+Qed.
+
+(* parsed programs: all doc strings free of line breaks, the file is contained *)
+Theorem C15_sw_file_line_free pd text :
+  forallb c15_sw_item_ok (items_of pd) = true ->
+  Forall (fun it => Forall C15_Front.c15_line_free (c15_item_docs it)) (items_of pd) ->
+  sw_generate uc cfg pd = Ok text ->
+  exists items trailer parts,
+    topsort (items_of pd) = Ok items /\ Permutation items (items_of pd) /\
+    (trailer = [] \/ trailer = c15_sw_trailer_docs) /\
+    text = text_of (c15_file_pieces C15sw parts) /\
+    docs_of (c15_file_pieces C15sw parts) = flat_map (c15_sw_item_docs uc) items ++ trailer /\
+    c15_contained C15sw LCode (mark (c15_file_pieces C15sw parts)) = true.
+Proof.
+  intros Hp Hfree H. destruct (C15_sw_file _ _ Hp H) as (items & trailer & ps & Ht & Hperm & Htr & Htext & Hd & Hc).
+  exists items, trailer, ps. repeat split; auto. rewrite Hc.
+  apply forallb_forall. intros d Hin. apply in_flat_map in Hin as (it & Hit & Hd0).
+  assert (Hin0 : In it (items_of pd)) by (eapply Permutation_in; eauto).
+  rewrite Forall_forall in Hfree. rewrite forallb_forall in Hp.
+  specialize (Hfree it Hin0). specialize (Hp it Hin0).
+  unfold c15_sw_item_docs in Hd0. apply in_map_iff in Hd0 as (d0 & <- & Hd1).
+  assert (Hstrict : c15_item_strict C15sw Swift it = true).
+  { unfold c15_sw_item_ok in Hp. now apply andb_true_iff in Hp as [Hp _]. }
+  assert (Hall : forallb (c15_safe C15sw false) (c15_item_docs_helpers_first it) = true).
+  { rewrite c15_helpers_first_safe.
+    rewrite (C15_Front.c15_line_free_forallb _ (C15_Front.c15_generated_free _ _ _ Hstrict) C15sw false).
+    exact (C15_Front.c15_line_free_forallb _ Hfree C15sw false). }
+  rewrite forallb_forall in Hall. exact (c15_trim_end_free uc d0 (Hall d0 Hd1)).
+Qed.
+End SWFile.
+
+(* non-vacuity for whole files: a version header, the items of C15_sw_item_nonvacuous plus a struct with a () field, so that
+   the CodableVoid trailer is printed *)
+Definition c15_swnv_file_cfg : sw_config :=
+  {| sw_prefix := lit "My"; sw_type_mappings := [(lit "Url", lit "URL")]; sw_default_decorators := [lit "Sendable"];
+     sw_default_generic_constraints := [lit "Sendable & Equatable"]; sw_codablevoid_constraints := [lit "Equatable"];
+     sw_no_version_header := false; sw_version := lit "1.13.2" |}.
+Definition c15_swnv_pd : parsed :=
+  {| p_structs := [ match c15_swnv_struct with ItStruct s => s | _ =>
+                      {| sid := c15_swnv_id "X" "X"; sgenerics := []; sfields := []; scomments := []; sdecs := []; sredacted := false |} end;
+                    {| sid := c15_swnv_id "Bar" "Bar"; sgenerics := [lit "T"];
+                       sfields := [c15_swnv_field "nothing" "nothing" (RPrim PUnit) [c15_doc_nasty_line]];
+                       scomments := [lit "has a unit"]; sdecs := []; sredacted := false |} ];
+     p_enums := [ match c15_swnv_enum with ItEnum e => e | _ =>
+                    EUnit {| eid := c15_swnv_id "X" "X"; egenerics := []; ecomments := []; evariants := [];
+                             edecs := []; erecursive := false; eredacted := false |} end ];
+     p_aliases := []; p_consts := []; p_type_names := [lit "Foo"; lit "Bar"; lit "E"]; p_errors := []; p_imports := [] |}.
+Example C15_sw_file_nonvacuous :
+  c15_sw_raw (sw_prefix c15_swnv_file_cfg) = true /\ c15_mappings_plain C15sw (sw_type_mappings c15_swnv_file_cfg) = true /\
+  forallb plain (sw_default_decorators c15_swnv_file_cfg) = true /\
+  forallb plain (sw_default_generic_constraints c15_swnv_file_cfg) = true /\
+  forallb plain (sw_codablevoid_constraints c15_swnv_file_cfg) = true /\
+  c15_sw_version_ok (sw_version c15_swnv_file_cfg) = true /\
+  forallb c15_sw_item_ok (items_of c15_swnv_pd) = true /\
+  match sw_generate uc_exec c15_swnv_file_cfg c15_swnv_pd with
+  | Ok text => good_C15 C15sw (flat_map (c15_sw_item_docs uc_exec) (items_of c15_swnv_pd)) text &&
+               contains_sub (lit "public struct CodableVoid: Codable, Sendable, Equatable {}") text &&
+               contains_sub (lit "Generated by typeshare 1.13.2") text
+  | _ => false
+  end = true.
+Proof. repeat split; vm_compute; reflexivity. Qed.
